@@ -8,6 +8,7 @@ CONSTRAINT Bounded
 VIEW View
 INVARIANT TypeOK
 INVARIANT JusticeCovers
+INVARIANT JusticeCadence
 INVARIANT CheaterKeepsNothing
 INVARIANT NoEntitledOutputIdle
 INVARIANT BalancesAddUp
